@@ -2,8 +2,9 @@
    inside the guard, an observation that equals the model's output satisfies C18_ok.  Hence
    verdict 2 is impossible and a non-zero verdict always involves a disagreement with the model
    or an observation that breaks the property. *)
-From SC Require Import Base.Prelude Timeline.Timestamp Timeline.Segment Timeline.Mode Timeline.C18Judge
-  Timeline.TimestampProofs Timeline.SegmentProofs Timeline.ShiftSumProofs Timeline.ModeProofs.
+From SC Require Import Base.Prelude Timeline.Timestamp Timeline.Segment Timeline.Mode Timeline.Own Timeline.Wrap
+  Timeline.C18Judge Timeline.TimestampProofs Timeline.SegmentProofs Timeline.ShiftSumProofs Timeline.ModeProofs
+  Timeline.OwnProofs Timeline.WrapProofs Timeline.MoreProofs.
 
 Local Arguments Z.add : simpl never.
 Local Arguments Z.sub : simpl never.
@@ -101,6 +102,27 @@ Qed.
 Lemma mode_wf_segs m : mode_wf m = true -> segs_wf (msegs m) = true.
 Proof. unfold mode_wf. intros H. apply andb_prop in H. tauto. Qed.
 
+Lemma cut_eqb_eq a b : cut_eqb a b = true -> a = b.
+Proof. destruct a, b; simpl; intros H; try discriminate; try reflexivity; f_equal; apply ts_eqb_eq; exact H. Qed.
+Lemma period_eqb_eq p q : period_eqb p q = true -> p = q.
+Proof.
+  destruct p as [ps pe], q as [qs qe]. unfold period_eqb. simpl. intros H. apply andb_prop in H. destruct H as [H1 H2].
+  apply (option_eqb_eq ts_eqb ts_eqb_eq) in H1. apply (option_eqb_eq ts_eqb ts_eqb_eq) in H2. subst. reflexivity.
+Qed.
+Lemma optZ_eqb_refl o : optZ_eqb o o = true.
+Proof. destruct o; simpl; [apply Z.eqb_refl|reflexivity]. Qed.
+
+Lemma guard2 (a b : bool) : a && b = true -> a = true /\ b = true.
+Proof. apply andb_prop. Qed.
+
+(* the ownership cases: the model never reports a mutation *)
+Lemma own_sound (mut : bool) h0 h (rest : bool) :
+  heap_ext h0 h -> Bool.eqb mut (negb (heap_kept h0 h)) && rest = true -> negb mut = true.
+Proof.
+  intros E A. apply andb_prop in A. destruct A as [A _]. apply Bool.eqb_prop in A. subst mut.
+  rewrite (heap_ext_kept h0 h E). reflexivity.
+Qed.
+
 Theorem judge_sound c : C18_guard c = true -> agrees c = true -> C18_ok c = true.
 Proof.
   destruct c; unfold C18_guard, agrees, C18_ok; intros G A.
@@ -112,23 +134,24 @@ Proof.
   - (* KConnected *)
     apply Bool.eqb_prop in A. subst obs. destruct (sound_periods p q G) as [_ H]. rewrite H. apply Bool.eqb_reflx.
   - (* KActiveAt *)
+    destruct (dur_guard_spec d l G) as (L & _). rewrite (active_at_w_eq d l L) in A.
     apply zz_eqb_eq in A. subst obs. apply active_ok_model.
   - (* KMagAt *)
+    destruct (dur_guard_spec d l G) as (L & _). rewrite (magnitude_at_w_eq d l L) in A.
     apply zb_eqb_eq in A. subst obs. rewrite magnitude_at_is_level.
     destruct (level d l); simpl; apply zb_eqb_refl.
   - (* KDuration *)
+    destruct (dur_guard_spec 0 l G) as (L & _). rewrite (duration_w_eq l L) in A.
     apply zb_eqb_eq in A. subst obs. unfold duration. rewrite duration_from_spec.
     destruct (forallb (fun s => match len s with Some _ => true | None => false end) l).
     + unfold prefix_len. rewrite firstn_zlen. replace (0 + sumZ (map fin_len l)) with (sumZ (map fin_len l)) by lia.
       apply zb_eqb_refl.
     + reflexivity.
   - (* KMax *)
-    apply Z.eqb_eq in A. subst obs. pose proof (max_index_contract l) as C. simpl in C.
-    destruct (Z.ltb_spec (max_index l) (zlen l)).
-    + destruct C as (C1 & C2 & C3 & C4). rewrite C2, C3, C4.
-      destruct (Z.leb_spec 0 (max_index l)); [reflexivity|lia].
-    + exact C.
-  - (* KMaxAfter *) reflexivity.
+    apply Z.eqb_eq in A. subst obs. apply max_ok_model.
+  - (* KMaxAfter *)
+    destruct (dur_guard_spec d l G) as (L & _). rewrite (max_after_w_eq d l L) in A.
+    apply Z.eqb_eq in A. subst obs. apply max_after_contract.
   - (* KCutSeg *)
     apply (cut3_eqb_eq seg_eqb seg_eqb_eq) in A. subst obs.
     destruct (Z.ltb_spec 0 d) as [Hd|Hd]; cbv beta iota delta [andb]; [|destruct (cut_seg d s) as [[? ?] ?]; reflexivity].
@@ -139,16 +162,23 @@ Proof.
     apply andb_true_intro. split; [apply andb_true_intro; split; [unfold option_eqb; apply Z.eqb_refl|reflexivity]|].
     apply pointwise_intro. intros t. symmetry. apply V.
   - (* KShift *)
-    apply segs_eqb_eq in A. subst obs. apply pointwise_intro. intros t. apply shift_is_translation. exact G.
+    rewrite (shift_w_eq d l G) in A. destruct (dur_guard_spec d l G) as ([Hwf _] & _).
+    apply segs_eqb_eq in A. subst obs. apply pointwise_intro. intros t. apply shift_is_translation. exact Hwf.
   - (* KSum *)
-    apply andb_prop in G. destruct G as [G1 G2]. apply segs_eqb_eq in A. subst obs.
-    apply pointwise_intro. intros t. apply sum_is_pointwise; assumption.
+    apply andb_prop in G. destruct G as [G1 G2]. apply Z.leb_le in G2. rewrite (sum_w_eq ls G1) in A.
+    apply segs_eqb_eq in A. subst obs.
+    assert (Hwf : forallb segs_wf ls = true).
+    { apply forallb_forall. intros l Hl. rewrite forallb_forall in G1. apply (lens_ok_b_spec l (G1 l Hl)). }
+    apply pointwise_intro. intros t. apply sum_is_pointwise_tail; assumption.
   - (* KModeMagAt *)
+    apply guard2 in G. destruct G as [Gw Gd]. rewrite (mode_magnitude_at_w_eq t m Gd) in A.
     apply zb_eqb_eq in A. subst obs. rewrite mode_magnitude_at_is_level.
     destruct (level (t - t_or_st t m) (msegs m)); simpl; apply zb_eqb_refl.
   - (* KModeActiveAt *)
+    apply guard2 in G. destruct G as [Gw Gd]. rewrite (mode_active_at_w_eq t m Gd) in A.
     apply zz_eqb_eq in A. subst obs. apply active_ok_model.
   - (* KModeCut *)
+    apply guard2 in G. destruct G as [G Gd]. rewrite (mode_cut_w_eq t m Gd) in A.
     apply (cut3_eqb_eq mode_eqb mode_eqb_eq) in A. subst obs.
     destruct (mode_cut t m) as [[b a] outside] eqn:E.
     destruct (mstart m) as [s|] eqn:Hs; [|reflexivity].
@@ -160,6 +190,7 @@ Proof.
       destruct (Z.ltb_spec x t); [rewrite Hbefore by lia|rewrite Hafter by lia]; apply Z.eqb_refl.
     + rewrite Ha. simpl. unfold ts_eqb. rewrite !Z.eqb_refl. reflexivity.
   - (* KModeShift *)
+    apply guard2 in G. destruct G as [G Gd]. rewrite (mode_shift_w_eq d m Gd) in A.
     apply mode_eqb_eq in A. subst obs.
     destruct (mstart m) as [s|] eqn:Hs.
     + assert (E : exists s', mstart (mode_shift d m) = Some s').
@@ -170,23 +201,60 @@ Proof.
       apply pointwise_intro. intros x.
       destruct (mode_shift_without_start d m x Hs (mode_wf_segs m G)) as [_ V]. exact V.
   - (* KModeSum *)
-    apply andb_prop in G. destruct G as [G1 G2].
+    apply guard2 in G. destruct G as [G Gs]. rewrite (mode_sum_w_eq ms Gs) in A.
+    apply andb_prop in G. destruct G as [G1 G2]. apply Z.leb_le in G2. fold (modes_tail ms) in G2.
     apply (option_eqb_eq mode_eqb mode_eqb_eq) in A. subst obs.
     destruct ms as [|m0 ms']; [reflexivity|].
     assert (Hwf : forallb (fun m => segs_wf (msegs m)) (m0 :: ms') = true).
     { apply forallb_forall. intros m Hm. rewrite forallb_forall in G1. apply mode_wf_segs. apply G1. exact Hm. }
     assert (Hne : m0 :: ms' <> []) by discriminate.
     destruct (starts (m0 :: ms')) as [|s0 rest] eqn:Hst.
-    + destruct (mode_sum_no_start (m0 :: ms') 0 Hne Hst Hwf G2) as (r & E & Hr & _). rewrite E. rewrite Hr. simpl negb.
+    + destruct (mode_sum_no_start_tail (m0 :: ms') 0 Hne Hst Hwf G2) as (r & E & Hr & _). rewrite E. rewrite Hr. simpl negb.
       apply pointwise_intro. intros x.
-      destruct (mode_sum_no_start (m0 :: ms') x Hne Hst Hwf G2) as (r' & E' & _ & V). rewrite E in E'. inversion E'. subst r'. exact V.
-    + destruct (mode_sum_is_pointwise (m0 :: ms') s0 rest Hne Hst Hwf G2) as (r & E & Hr & V). rewrite E. rewrite Hr.
+      destruct (mode_sum_no_start_tail (m0 :: ms') x Hne Hst Hwf G2) as (r' & E' & _ & V). rewrite E in E'. inversion E'. subst r'. exact V.
+    + destruct (mode_sum_is_pointwise_tail (m0 :: ms') s0 rest Hne Hst Hwf G2) as (r & E & Hr & V). rewrite E. rewrite Hr.
       apply andb_true_intro. split.
       * simpl. unfold ts_eqb. rewrite !Z.eqb_refl. reflexivity.
       * apply forallb_forall. intros x _.
         destruct (Z.ltb_spec x (minZ rest s0)); [reflexivity|].
         specialize (V x ltac:(lia)). unfold mode_val in V. rewrite Hr in V. rewrite ts_val_ts_of in V.
         rewrite V. apply Z.eqb_refl.
+  - (* KCutCompare *)
+    apply guard2 in G. destruct G as [Ga Gb]. apply Z.eqb_eq in A. subst obs.
+    rewrite (cut_compare_is_ref a b Ga Gb). apply Z.eqb_refl.
+  - (* KCutPeriod *)
+    destruct obs as [lo hi]. simpl fst in A. simpl snd in A. apply guard2 in A. destruct A as [A1 A2].
+    apply cut_eqb_eq in A1. apply cut_eqb_eq in A2. subst lo hi.
+    destruct (cut_period_ranks p) as [R1 R2]. unfold end_rank in R1, R2. rewrite R1, R2.
+    apply andb_true_intro. split; apply Z.eqb_eq; apply lex3_zero; reflexivity.
+  - (* KPeriodCtor *)
+    apply (option_eqb_eq period_eqb period_eqb_eq) in A. subst obs. unfold period_ctor.
+    destruct (k =? 0); [reflexivity|]. destruct (k =? 1).
+    { unfold period_lo, period_hi. simpl. rewrite !optZ_eqb_refl. reflexivity. }
+    destruct (k =? 2); unfold period_lo, period_hi; simpl; rewrite !optZ_eqb_refl; reflexivity.
+  - (* KMaxMagnitude *)
+    apply Z.eqb_eq in A. subst obs. rewrite max_magnitude_is_max. apply Z.eqb_refl.
+  - (* KSumMagnitude *)
+    exact A.
+  - (* KModeMaxAfter *)
+    apply guard2 in G. destruct G as [Gw Gd]. rewrite (mode_max_segment_after_w_eq t m Gd) in A.
+    apply Z.eqb_eq in A. subst obs. unfold mode_max_segment_after. apply max_after_contract.
+  - (* KMinAt *) exact A.
+  - (* KOwnShift *)
+    destruct (arg_heap pre post l) as [h0 s]. pose proof (shift_never_writes_args d s h0) as E.
+    destruct (shift_own d s h0) as [r h]. exact (own_sound _ _ _ _ E A).
+  - (* KOwnSum *)
+    destruct (args_heap args) as [h0 ss]. pose proof (sum_never_writes_args no_growth ss h0) as E.
+    destruct (sum_own no_growth ss h0) as [r h]. exact (own_sound _ _ _ _ E A).
+  - (* KOwnModeCut *)
+    destruct (margs_heap [arg]) as [h0 ms]. pose proof (mode_cut_never_writes_args no_growth t 0%nat h0) as E.
+    destruct (mode_cut_own no_growth t 0%nat h0) as [[[b a] o] h]. exact (own_sound _ _ _ _ E A).
+  - (* KOwnModeShift *)
+    destruct (margs_heap [arg]) as [h0 ms]. pose proof (mode_shift_never_writes_args no_growth d 0%nat h0) as E.
+    destruct (mode_shift_own no_growth d 0%nat h0) as [r h]. exact (own_sound _ _ _ _ E A).
+  - (* KOwnModeSum *)
+    destruct (margs_heap args) as [h0 ms]. pose proof (mode_sum_never_writes_args no_growth ms h0) as E.
+    destruct (mode_sum_own no_growth ms h0) as [r h]. exact (own_sound _ _ _ _ E A).
 Qed.
 
 (* consequently the check's verdict on the model's own output is always 0 *)
